@@ -371,7 +371,9 @@ WIDE = ["a", "d", "d/a", "e", "e/a"]          # a second directory: renames / mo
 
 
 def run(ctx):
+    import logging
     env.init()
+    logging.getLogger("brz").setLevel(logging.ERROR)        # revert's "Conflict adding file ..." notes
     make_templates(ctx)
     inits = ["empty", "pop"]
     jobs = []
